@@ -1311,10 +1311,12 @@ def wrap_ra_diff(dra):
             return dra
 
         while dra < -180.0:
-            dra += 360.0
+            dra = dra + 360.0
         while dra > 180.0:
-            dra -= 360.0
+            dra = dra - 360.0
     else:
+        # work on a copy, the input array is not modified
+        dra = np.array(dra)
         msk_finite = np.isfinite(dra)
         msk = (dra < -180.0) & msk_finite
         while np.any(msk):
